@@ -1,9 +1,249 @@
 package main
 
-import "verif/lib/vlib"
+// C01, second sentence: "Enabling a hardware optimisation that was derived from the program never
+// changes that behaviour." The optimisations (OnlyDestRegs / OnlySrcRegs) prune case arms using the
+// requirement tree the assembler derives from the program, so the space here is PROGRAMS: all
+// programs of a bounded size over a small instruction alphabet go through the real basm pipeline;
+// the machine is rendered twice through the real generators (plain, and with both optimisations and
+// the program's own requirement tree) and both file sets are executed under vsim: pc, every
+// register and every output must be identical after every clock cycle.
 
-// hwOptCheck: program-derived hardware optimisations (OnlyDestRegs/OnlySrcRegs) — see hwopt_basm.go
-// once the BASM pipeline driver exists. Returns a per-program summary for the evidence.
+import (
+	"fmt"
+	"runtime"
+	"strings"
+	"sync"
+
+	"verif/engines/vsim"
+	"verif/lib/bmgen"
+	"verif/lib/vlib"
+
+	"github.com/BondMachineHQ/BondMachine/pkg/basm"
+	"github.com/BondMachineHQ/BondMachine/pkg/bminfo"
+	"github.com/BondMachineHQ/BondMachine/pkg/bmreqs"
+	"github.com/BondMachineHQ/BondMachine/pkg/bondmachine"
+	"github.com/BondMachineHQ/BondMachine/pkg/procbuilder"
+)
+
+func hwProgram(body []string) string {
+	var sb strings.Builder
+	sb.WriteString("%section prog .romtext iomode:async\n\tentry _start\n_start:\n")
+	for _, l := range body {
+		sb.WriteString("\t" + l + "\n")
+	}
+	sb.WriteString("\tr2o r0, o0\n\tr2o r1, o1\n\tj _start\n%endsection\n\n%meta cpdef p0 romcode: prog, ramsize:8\n")
+	sb.WriteString("%meta ioatt l0 cp: p0, index:0, type:output\n%meta ioatt l0 cp: bm, index:0, type:output\n")
+	sb.WriteString("%meta ioatt l1 cp: p0, index:1, type:output\n%meta ioatt l1 cp: bm, index:1, type:output\n")
+	sb.WriteString("%meta bmdef global registersize:8\n")
+	return sb.String()
+}
+
+func assemble(src string) (bm *bondmachine.Bondmachine, reqs bmreqs.ExportedReqs, err error) {
+	defer func() {
+		if p := recover(); p != nil {
+			err = fmt.Errorf("panic: %v", p)
+		}
+	}()
+	bi := new(basm.BasmInstance)
+	bi.BMinfo = new(bminfo.BMinfo)
+	bi.BasmInstanceInit(nil)
+	if err = bi.ParseAssemblyStringDefault(src); err != nil {
+		return
+	}
+	if err = bi.RunAssembler(); err != nil {
+		return
+	}
+	if err = bi.Assembler2BondMachine(); err != nil {
+		return
+	}
+	return bi.GetBondMachine(), bi.DumpRequirements(), nil
+}
+
+type hwSide struct {
+	sim      *vsim.Sim
+	clk, rst vsim.SigID
+	obs      []vsim.SigID
+	names    []string
+}
+
+func elaborateSet(files map[string]string, nregs int) (*hwSide, error) {
+	d, diags := vsim.Parse(files)
+	for _, dg := range diags {
+		return nil, fmt.Errorf("%s %s:%d %s", dg.Class, dg.File, dg.Line, dg.Msg)
+	}
+	sim, err := d.Elaborate("bondmachine", nil)
+	if err != nil {
+		return nil, err
+	}
+	h := &hwSide{sim: sim}
+	var ok bool
+	if h.clk, ok = sim.Lookup("clk"); !ok {
+		return nil, fmt.Errorf("no clk")
+	}
+	if h.rst, ok = sim.Lookup("reset"); !ok {
+		return nil, fmt.Errorf("no reset")
+	}
+	names := []string{"a0_inst.p0_instance._pc", "o0", "o1"}
+	for r := 0; r < nregs; r++ {
+		names = append(names, fmt.Sprintf("a0_inst.p0_instance._r%d", r))
+	}
+	for _, n := range names {
+		id, ok := sim.Lookup(n)
+		if !ok {
+			return nil, fmt.Errorf("signal %s missing", n)
+		}
+		h.obs = append(h.obs, id)
+		h.names = append(h.names, n)
+	}
+	if err := sim.Init(); err != nil {
+		return nil, err
+	}
+	sim.Set(h.rst, 0)
+	sim.Set(h.clk, 0)
+	sim.Posedge(h.rst)
+	sim.Posedge(h.clk)
+	sim.Negedge(h.clk)
+	sim.Negedge(h.rst)
+	return h, nil
+}
+
+type hwResult struct {
+	src               string
+	skipped, mismatch string
+	prunedArms        bool
+}
+
+func hwOne(body []string) hwResult {
+	src := hwProgram(body)
+	res := hwResult{src: src}
+	bm1, reqs, err := assemble(src)
+	if err != nil {
+		res.skipped = "assembler: " + err.Error()
+		return res
+	}
+	bm2, _, err := assemble(src)
+	if err != nil {
+		res.skipped = "assembler (2nd): " + err.Error()
+		return res
+	}
+	plain, err := bmgen.RenderFiles(bm1, new(bondmachine.Config), "iverilog")
+	if err != nil {
+		res.skipped = "render: " + err.Error()
+		return res
+	}
+	rg, err := bmreqs.Import(&reqs)
+	if err != nil {
+		res.skipped = "requirements import: " + err.Error()
+		return res
+	}
+	defer rg.Close()
+	conf := new(bondmachine.Config)
+	conf.ReqRoot = rg
+	conf.HwOptimizations = procbuilder.SetHwOptimization(procbuilder.SetHwOptimization(0, procbuilder.HwOptimizations(procbuilder.OnlyDestRegs)), procbuilder.HwOptimizations(procbuilder.OnlySrcRegs))
+	opt, err := bmgen.RenderFiles(bm2, conf, "iverilog")
+	if err != nil {
+		res.skipped = "render (optimised): " + err.Error()
+		return res
+	}
+	res.prunedArms = len(opt["p0.v"]) < len(plain["p0.v"])
+	nregs := 1 << bm1.Domains[0].R
+	a, err := elaborateSet(plain, nregs)
+	if err != nil {
+		res.skipped = "plain HDL not simulable: " + err.Error()
+		return res
+	}
+	b, err := elaborateSet(opt, nregs)
+	if err != nil {
+		// the plain file set simulates and the optimised one does not: the optimisation broke the HDL
+		res.mismatch = "optimised HDL does not elaborate: " + err.Error()
+		return res
+	}
+	for c := 0; c < 48; c++ {
+		if err := a.sim.Posedge(a.clk); err != nil {
+			res.skipped = err.Error()
+			return res
+		}
+		if err := b.sim.Posedge(b.clk); err != nil {
+			res.mismatch = "optimised HDL fails at cycle " + fmt.Sprint(c) + ": " + err.Error()
+			return res
+		}
+		for i := range a.obs {
+			if va, vb := a.sim.Get(a.obs[i]), b.sim.Get(b.obs[i]); va != vb {
+				res.mismatch = fmt.Sprintf("cycle %d: %s = %d without the optimisation, %d with it", c, a.names[i], va, vb)
+				return res
+			}
+		}
+	}
+	return res
+}
+
 func hwOptCheck(run *vlib.Run, table coimplTable) []map[string]any {
-	return nil
+	regs := []string{"r0", "r1", "r2"}
+	var alpha []string
+	for _, r := range regs {
+		alpha = append(alpha, "rset "+r+", 3", "inc "+r, "dec "+r, "clr "+r)
+		for _, s := range regs {
+			alpha = append(alpha, "add "+r+", "+s, "cpy "+r+", "+s)
+		}
+	}
+	alpha = append(alpha, "rset r0, 200", "jz r1, _start", "jz r2, _start", "nop")
+	var progs [][]string
+	for _, a := range alpha {
+		progs = append(progs, []string{a})
+		for _, b := range alpha {
+			progs = append(progs, []string{a, b})
+		}
+	}
+	if run.Thorough() {
+		small := []string{"rset r0, 3", "rset r2, 1", "inc r1", "inc r2", "add r0, r2", "add r1, r0", "cpy r2, r0", "cpy r1, r2", "dec r0", "jz r2, _start", "clr r1"}
+		for _, a := range small {
+			for _, b := range small {
+				for _, c := range small {
+					progs = append(progs, []string{a, b, c})
+				}
+			}
+		}
+	}
+	results := make([]hwResult, len(progs))
+	var wg sync.WaitGroup
+	ch := make(chan int)
+	for w := 0; w < runtime.NumCPU(); w++ {
+		wg.Add(1)
+		go func() {
+			defer wg.Done()
+			for i := range ch {
+				results[i] = hwOne(progs[i])
+			}
+		}()
+	}
+	for i := range progs {
+		ch <- i
+	}
+	close(ch)
+	wg.Wait()
+	compared, pruned, skipped := 0, 0, 0
+	skipWhy := map[string]int{}
+	for i, r := range results {
+		if r.skipped != "" {
+			skipped++
+			k := r.skipped
+			if len(k) > 60 {
+				k = k[:60]
+			}
+			skipWhy[k]++
+			continue
+		}
+		compared++
+		if r.prunedArms {
+			pruned++
+		}
+		if r.mismatch != "" {
+			run.Report("C01|hw-optimisation|behaviour-changes", fmt.Sprintf("program `%s; r2o r0,o0; r2o r1,o1; j _start`: %s", strings.Join(progs[i], "; "), r.mismatch),
+				map[string]any{"kind": "hwopt", "body": progs[i]})
+		}
+	}
+	run.Add("states", compared)
+	run.Add("transitions", compared*48)
+	run.Add("traces_validated_against_impl", compared*2)
+	return []map[string]any{{"programs": len(progs), "compared_cycle_by_cycle": compared, "with_pruned_case_arms": pruned, "skipped": skipped, "skip_reasons": skipWhy}}
 }
